@@ -985,7 +985,11 @@ func (r *Raft) sendAppendEntriesToPeers() {
 		r.tryApplyReadOnlyOperations()
 	}
 
-	numResponses := 1
+	// This node only counts towards the quorum if it is a voting member itself.
+	numResponses := 0
+	if r.isVoter(r.id) {
+		numResponses = 1
+	}
 	for id, address := range r.configuration.Members {
 		if id != r.id {
 			go r.sendAppendEntries(id, address, &numResponses)
@@ -1750,7 +1754,11 @@ func (r *Raft) commitLoop() {
 
 			// Check whether the majority of nodes in the cluster agree on the entry.
 			// If they do, it is safe to commit.
-			matches := 1
+			// This node only counts if it is a voting member itself.
+			matches := 0
+			if r.isVoter(r.id) {
+				matches = 1
+			}
 			for id, follower := range r.followers {
 				// Ignore this node and any nodes which are not voting members.
 				if id == r.id || !r.configuration.IsVoter[id] {
